@@ -55,7 +55,7 @@ static std::string oracle(const Case& c) {
     std::string r = m.run(seq); if (!r.empty()) return r + "   sequence: " + ops::describe(seq);
     ev.eval(); ev.count("ops-executed", seq.size()); for (auto& p : m.cls) if (p.first.rfind("inject:", 0) == 0 || p.first.rfind("op:", 0) == 0) ev.count(p.first, p.second);
     if (m.saw_reinject) ev.count("seq:re-injection-to-other-set");
-    if (m.cls.count("op:inject")) { ev.nt(c); ev.sample(c.get("gen", "seq"), c); } else ev.count("trivial");
+    if (m.cls.count("op:inject")) { ev.nt(c); { Case sc = c; sc.set("described", ops::describe(seq).substr(0, 600)); ev.sample(c.get("gen", "seq"), sc); } } else ev.count("trivial");
     return "";
 }
 
